@@ -127,11 +127,13 @@ type Interp struct {
 	concFailures   []string
 	concReached    []string
 	lastClock      *Term
+	lastCallee     *ssa.Function
 	facts          []factEnt
 	model          map[string]ModelValue
 	evalMemo       map[*Term]*Term
 	allVars        []*Term
 	NoModelGuide   bool
+	HashUF         bool
 	factMap        map[string]bool
 	// speculation (merge.go)
 	spec         int
@@ -645,6 +647,7 @@ func (in *Interp) callSSA(fn *ssa.Function, args []V, env []V, caller *Frame) V 
 		in.H.Funcs[name] = true
 	}
 	if intr, ok := in.intr[name]; ok {
+		in.lastCallee = fn
 		return intr(in, caller, args)
 	}
 	if fn.Synthetic != "" && strings.HasPrefix(fn.Synthetic, "instance of") {
@@ -662,7 +665,12 @@ func (in *Interp) callSSA(fn *ssa.Function, args []V, env []V, caller *Frame) V 
 		if fn.Name() == "init" {
 			return nil
 		}
-		in.effect("call:" + name)
+		if effectPkg[pk.Pkg.Path()] {
+			// OS-facing package: reaching it is an effect event; continue with
+			// zero results and a non-nil error
+			in.effect("os:" + name)
+			return in.zeroResultsErr(fn, name)
+		}
 		in.unsupported("call into unmodelled package: %s", name)
 	}
 	if fn.Blocks == nil {
@@ -831,6 +839,30 @@ func (in *Interp) runDefer(fr *Frame, d deferred) {
 var unmodelledPkg = map[string]bool{
 	"regexp": true, "regexp/syntax": true, "os/exec": true, "net": true, "plugin": true,
 	"reflect": true, "os/signal": true, "net/http": true, "os/user": true, "io/ioutil": true,
+}
+
+// effectPkg: unmodelled packages whose every entry point is an OS effect.
+var effectPkg = map[string]bool{"os/exec": true, "net": true, "plugin": true, "io/ioutil": true, "net/http": true, "os/signal": true, "os/user": true}
+
+func (in *Interp) zeroResultsErr(fn *ssa.Function, name string) V {
+	res := fn.Signature.Results()
+	mk := func(t types.Type) V {
+		if types.Identical(t, types.Universe.Lookup("error").Type()) {
+			return in.newError("verif: OS primitive " + name + " not executed")
+		}
+		return in.zero(t)
+	}
+	switch res.Len() {
+	case 0:
+		return nil
+	case 1:
+		return mk(res.At(0).Type())
+	}
+	tv := make(TupleV, res.Len())
+	for i := range tv {
+		tv[i] = mk(res.At(i).Type())
+	}
+	return tv
 }
 
 type cont int
